@@ -268,6 +268,8 @@ class Ctx:
     def id_of(self, obj, fresh=True):
         if obj is None:
             return 0
+        if type(obj) is tuple and not obj:
+            return -1            # the empty tuple is a singleton: no identity
         i = self.idmap.get(id(obj))
         if i is None:
             if not fresh:
